@@ -1183,6 +1183,29 @@ impl Exec {
                 );
                 self.out.transitions += 1;
             }
+            // a changeset prepared on a chain of overlays is frozen into an overlay only now
+            // (FinishedSession::into_overlay) — possibly after its parent has been committed
+            "p2ov" => {
+                let pid = arg["prep"].as_u64().unwrap() as usize;
+                let oid = arg["ov"].as_u64().unwrap() as usize;
+                let Some(p) = self.prepared.get_mut(&pid) else { return Ok(()) };
+                let Some(fin) = p.fin.take() else { return Ok(()) };
+                let (parent, writes, view) = (p.on_parent, p.writes.clone(), p.base.clone());
+                let ov = fin.into_overlay();
+                let mut after = view.clone();
+                Model::apply(&mut after, &writes);
+                let want = refmodel::root::<B3>(&after);
+                if self.flags.root && ov.root().into_inner() != want {
+                    return Err(viol("overlay-root", format!("op {idx}: Overlay::root of a changeset frozen late != reference")));
+                }
+                let (base, base_seqn) = match parent {
+                    None => (view, self.model.seqn),
+                    Some(l) => (self.overlays[&l].1.base.clone(), self.overlays[&l].1.base_seqn),
+                };
+                self.overlays.insert(oid, (Some(ov), MOverlay { parent, writes, base, base_seqn, status: OvStatus::Live }));
+                self.out.goals.push("changeset-frozen-into-overlay-late");
+                self.out.transitions += 1;
+            }
             "fc" | "fcn" => {
                 let id = arg.as_u64().unwrap() as usize;
                 let Some(p) = self.prepared.get_mut(&id) else { return Ok(()) };
